@@ -169,7 +169,7 @@ func c01Check(cs c01Case) (ds []disc) {
 			fail("put-etag", "PUT ETag %s want %s", got, et)
 		}
 		if cs.Path == "copy" {
-			readKey = key + ".copy"
+			readKey = c01CopyDest(key)
 			cleanup = append(cleanup, readKey)
 			// the copy request carries metadata of its own: the destination gets it on top of the
 			// source's, the source must keep exactly what its PUT sent
@@ -404,6 +404,17 @@ func c01GenKey(rt *rapid.T) string {
 // key1024 is exactly 1024 bytes long with every segment <= 255 bytes.
 var key1024 = strings.Repeat("a", 255) + "/" + strings.Repeat("b", 255) + "/" + strings.Repeat("c", 255) + "/" + strings.Repeat("d", 254) + "/e"
 
+// c01CopyDest names the destination of the copy path: the key plus ".copy", unless that would
+// push the last path segment over the 255 bytes a real directory entry may have (outside the file
+// system backends' key domain), in which case the suffix goes in front.
+func c01CopyDest(key string) string {
+	last := key[strings.LastIndexByte(key, '/')+1:]
+	if len(last)+len(".copy") > 255 {
+		return "copy.of/" + key
+	}
+	return key + ".copy"
+}
+
 func fixKeyLen(k string) string {
 	if len(k) > 1024 {
 		k = k[:1024]
@@ -514,7 +525,7 @@ func c01Run(t *testing.T, c *evid.Collector) {
 	one := func(cs c01Case, src string) bool {
 		klen := len(cs.Key)
 		if cs.Path == "copy" {
-			klen += len(".copy")
+			klen = len(c01CopyDest(cs.Key))
 		}
 		if cs.Backend.IsDir() && klen+33 > 255 && evid.Open("KF-C01-fs-longkey") {
 			// excluded by construction: the metadata file name (flattened key + "-" + 32 hex
@@ -584,7 +595,7 @@ func c01Run(t *testing.T, c *evid.Collector) {
 		cs.Path = rapid.SampledFrom([]string{"put", "put", "put-md5", "post", "copy", "api"}).Draw(rt, "path")
 		cs.Overwrite = rapid.Bool().Draw(rt, "overwrite")
 		cs.Frag = genFrag(rt, len(cs.Body.bytes()))
-		if cs.Path == "copy" && len(cs.Key)+5 > 1024 {
+		if cs.Path == "copy" && len(c01CopyDest(cs.Key)) > 1024 {
 			cs.Path = "put"
 		}
 		if one(cs, "random") {
